@@ -38,7 +38,9 @@ RULE = (
     "(raise/lower/equal), set_complete, reset(), reset(new_max). Oracle: armed flag per the "
     "statement. Non-trivial: a last callback registered before a plain one and both called, an "
     "unconnect between two emits of one event, nested silencing or a context entered while the "
-    "flag is set followed by an emit, single with >=2 candidates; reporter: >=2 completions.")
+    "flag is set followed by an emit, single with >=2 candidates; reporter: >=2 completions."
+    ' Later additions: tuple/list/dict/format-character arguments, callables without __name__, a '
+    'callable sender, identity of the sender object passed through.')
 ASSUMPTIONS = ['Python object identity/equality for sender matching']
 
 EVENTS = ['open', 'n_b', 'c']     # by-name events start with 'o' / 'n' (on_open, on_n_b)
